@@ -1459,9 +1459,12 @@ impl noq::UdpSender for Sender {
                 }
             }
             MultipathMappedAddr::Ip(socket_addr) => {
-                // Ensure IPv6 mapped addresses are converted back
-                let socket_addr =
-                    SocketAddr::new(socket_addr.ip().to_canonical(), socket_addr.port());
+                // Ensure IPv6 mapped addresses are converted back.  Any other address is
+                // kept as is: rebuilding it would lose the scope id of an IPv6 destination.
+                let socket_addr = match socket_addr.ip().to_canonical() {
+                    ip @ IpAddr::V4(_) => SocketAddr::new(ip, socket_addr.port()),
+                    IpAddr::V6(_) => socket_addr,
+                };
                 FourTuple::Ip {
                     remote: socket_addr,
                     local: noq_transmit.src_ip,
